@@ -318,6 +318,43 @@ def rejection_cases():
         return OBJ.build(spec)["data"]
     cases.append(("fchk", "non_aufbau", nonaufbau, (False, True), "PrepareDumpError"))
 
+    # FCHK stores only the numbers of alpha and beta electrons: every occupation pattern that is
+    # not "the first n_alpha / n_beta orbitals fully occupied" must be refused, in each spin
+    # channel separately (alpha aufbau with a hole in beta, fractional beta only, ...)
+    def fchk_occupations(kind, occs, aminusb=None):
+        def make():
+            data = base_object("fchk")
+            coeffs = np.asarray(data.mo.coeffs)
+            nb = coeffs.shape[0]
+            eye = np.linalg.qr(np.arange(1.0, nb * nb + 1).reshape(nb, nb) % 7 + np.eye(nb))[0]
+            if kind == "restricted":
+                norb = len(occs)
+                data.mo = MolecularOrbitals("restricted", norb, norb, occs=np.array(occs, dtype=float),
+                                            coeffs=np.resize(eye, (nb, norb)) if norb > nb else eye[:, :norb],
+                                            energies=np.arange(norb, dtype=float),
+                                            occs_aminusb=None if aminusb is None else np.array(aminusb, dtype=float))
+            else:
+                norba, norbb = len(occs[0]), len(occs[1])
+                data.mo = MolecularOrbitals("unrestricted", norba, norbb,
+                                            occs=np.array(list(occs[0]) + list(occs[1]), dtype=float),
+                                            coeffs=np.concatenate([eye[:, :norba], eye[:, :norbb]], axis=1),
+                                            energies=np.arange(norba + norbb, dtype=float))
+            return data
+        return make
+
+    patterns = [
+        ("restricted_hole", "restricted", [2, 0, 2, 0], None),
+        ("restricted_single_below_double", "restricted", [2, 1, 2, 0], None),
+        ("restricted_beta_hole_by_aminusb", "restricted", [2, 1, 1, 0], [0, 1, -1, 0]),
+        ("restricted_fractional_beta_only", "restricted", [2, 1.5, 0, 0], [0, 0.5, 0, 0]),
+        ("restricted_fractional", "restricted", [1.5, 0.5, 0, 0], None),
+        ("unrestricted_alpha_hole", "unrestricted", ([1, 0, 1, 0], [1, 0, 0, 0]), None),
+        ("unrestricted_beta_hole", "unrestricted", ([1, 1, 0, 0], [0, 1, 0, 0]), None),
+        ("unrestricted_fractional_beta", "unrestricted", ([1, 1, 0, 0], [0.5, 0.5, 0, 0]), None),
+    ]
+    for name, kind, occs, amb in patterns:
+        cases.append(("fchk", f"non_aufbau_{name}", fchk_occupations(kind, occs, amb), (False, True), "PrepareDumpError"))
+
     def no_schema():
         data = base_object("json_qcschema")
         data.extra = {k: v for k, v in data.extra.items() if k != "schema_name"}
